@@ -90,6 +90,17 @@ PROPS = {
         trusted_base=["the type -> (size, swap) table is obtained by calling DFKNTsize/DFKconvert of the library under test (gen/gen.py gen_conv)"],
         assumptions=["little-endian host (the generated table records which routines swap on THIS host)"],
     ),
+    "C10": dict(
+        lean_props=["H4.Props.C10", "H4.Props.C10Files"],
+        engines=[
+            E("attr", "e_attr.c", model="attr", quick=dict(cases=240, chunk=8), thorough=dict(cases=2400, seeds=4, chunk=16, timeout=1800)),
+        ],
+        trusted_base=["Vdata/Vgroup layer below the attribute Vdatas (VHstoredatam, VSread/VSwrite, DFKconvert): not modelled; the model's disk form of an attribute list is tied to cdf.c only through reopen behaviour (Tie B)",
+                      "reference numbers handed out by Hnewref are inputs of the model (checked distinct by the engine)",
+                      "SDS data, chunking/compression, unlimited-dimension scales, GR image data and palettes are outside this check"],
+        assumptions=["single-threaded; one file per case; little-endian host",
+                     "attribute names are non-empty and contain no NUL or comma; dimension names set by the user do not start with \"fakeDim\" (known finding otherwise)"],
+    ),
     "C05": dict(
         lean_props=["H4.Props.C05", "H4.Props.C05Bits", "H4.Props.C05NBit", "H4.Props.C05Skp"],
         engines=[
